@@ -1065,12 +1065,12 @@ func (a *A) pusiReturnsPrevious() {
 	}
 	// the value returned on this path is the previous queue
 	nret := 0
+	prev := 0 // over all returns behind the edge: the early flush may have a return of its own
 	for _, ret := range ssau.Returns(x.add) {
 		if !(ret.Block() == T || ssau.Reaches(T, ret.Block())) {
 			continue
 		}
 		nret++
-		prev := 0
 		for _, l := range pathValsRaw(ret.Results[0], ret.Block(), nil, T) {
 			if l == nil || ssau.IsNilConst(l) {
 				bad = append(bad, "on a PUSI path add returns nil: the previous unit is not handed out")
@@ -1086,9 +1086,9 @@ func (a *A) pusiReturnsPrevious() {
 				bad = append(bad, "on a PUSI path add returns "+strings.Join(why, "; "))
 			}
 		}
-		if prev == 0 {
-			bad = append(bad, "no PUSI path returns the pre-append queue value")
-		}
+	}
+	if nret > 0 && prev == 0 {
+		bad = append(bad, "no PUSI path returns the pre-append queue value")
 	}
 	if nret == 0 {
 		bad = append(bad, "no return after the PUSI edge")
